@@ -125,17 +125,25 @@ func encodeLength(out *bytes.Buffer, length int) (err error) {
 	return
 }
 
+var errBERTruncated = errors.New("ber2der: BER data is truncated")
+
 func readObject(ber []byte, offset int) (asn1Object, int, error) {
 	//fmt.Printf("\n====> Starting readObject at offset: %d\n\n", offset)
+	if offset >= len(ber) {
+		return nil, 0, errBERTruncated
+	}
 	tagStart := offset
 	b := ber[offset]
 	offset++
 	tag := b & 0x1F // last 5 bits
 	if tag == 0x1F {
 		tag = 0
-		for ber[offset] >= 0x80 {
+		for offset < len(ber) && ber[offset] >= 0x80 {
 			tag = tag*128 + ber[offset] - 0x80
 			offset++
+		}
+		if offset >= len(ber) {
+			return nil, 0, errBERTruncated
 		}
 		tag = tag*128 + ber[offset] - 0x80
 		offset++
@@ -152,6 +160,9 @@ func readObject(ber []byte, offset int) (asn1Object, int, error) {
 	*/
 	// read length
 	var length int
+	if offset >= len(ber) {
+		return nil, 0, errBERTruncated
+	}
 	l := ber[offset]
 	offset++
 	indefinite := false
@@ -159,6 +170,9 @@ func readObject(ber []byte, offset int) (asn1Object, int, error) {
 		numberOfBytes := (int)(l & 0x7F)
 		if numberOfBytes > 4 { // int is only guaranteed to be 32bit
 			return nil, 0, errors.New("ber2der: BER tag length too long")
+		}
+		if numberOfBytes > len(ber)-offset {
+			return nil, 0, errBERTruncated
 		}
 		if numberOfBytes == 4 && (int)(ber[offset]) > 0x7F {
 			return nil, 0, errors.New("ber2der: BER tag length is negative")
@@ -179,10 +193,10 @@ func readObject(ber []byte, offset int) (asn1Object, int, error) {
 	}
 
 	//fmt.Printf("--> length        : %d\n", length)
-	contentEnd := offset + length
-	if contentEnd > len(ber) {
+	if length > len(ber)-offset {
 		return nil, 0, errors.New("ber2der: BER tag length is more than available data")
 	}
+	contentEnd := offset + length
 	//fmt.Printf("--> content start : %d\n", offset)
 	//fmt.Printf("--> content end   : %d\n", contentEnd)
 	//fmt.Printf("--> content       : % X\n", ber[offset:contentEnd])
